@@ -383,16 +383,36 @@ fn pen_encodings(ctx: &Ctx, rep: &mut Report) {
     for s in &sgrs {
         for (pi, pl) in placements.iter().enumerate() {
             let input = pl(s);
-            let mut vt = build_vt(3, 2, None);
-            let _ = vt.feed_str(&input);
-            let d = vt.dump();
+            let d = match crate::engine::guarded(|| {
+                let mut vt = build_vt(3, 2, None);
+                let _ = vt.feed_str(&input);
+                vt.dump()
+            }) {
+                Ok(d) => d,
+                Err(p) => {
+                    emit_violation(ctx, rep, "C11", serde_json::json!({"part":"pen-encodings","input":esc(&input),"input_raw":input,"probe":"","probe_raw":"","placement":pi,
+                        "oracle":"panic","observed":p}));
+                    return;
+                }
+            };
             for p in std::iter::once("").chain(probes.iter().map(|x| x.as_str())) {
-                let mut a = build_vt(3, 2, None);
-                let _ = a.feed_str(&input);
-                let _ = a.feed_str(p);
-                let mut b = build_vt(3, 2, None);
-                let _ = b.feed_str(&d);
-                let _ = b.feed_str(p);
+                let pair = crate::engine::guarded(|| {
+                    let mut a = build_vt(3, 2, None);
+                    let _ = a.feed_str(&input);
+                    let _ = a.feed_str(p);
+                    let mut b = build_vt(3, 2, None);
+                    let _ = b.feed_str(&d);
+                    let _ = b.feed_str(p);
+                    (a, b)
+                });
+                let (a, b) = match pair {
+                    Ok(x) => x,
+                    Err(pm) => {
+                        emit_violation(ctx, rep, "C11", serde_json::json!({"part":"pen-encodings","input":esc(&input),"input_raw":input,"probe":esc(p),"probe_raw":p,"placement":pi,
+                            "oracle":"panic","observed":pm}));
+                        return;
+                    }
+                };
                 n += 1;
                 if obs(&a) != obs(&b) {
                     emit_violation(ctx, rep, "C11", serde_json::json!({"part":"pen-encodings","input":esc(&input),"input_raw":input,"probe":esc(p),"probe_raw":p,"placement":pi,
